@@ -48,7 +48,8 @@ CONFIG = {
     'must_sig': ['reach:_build_atoms:A_tail.append( atom | {Lang.Not(Lang.X(phi))',
                  'reach:_build_atoms:new_atom = atom | set([phi, Lang.X(LNot(sf))])',
                  'scc:self_fulfilling', 'scc:rejected_not_self_fulfilling',
-                 'style:text', 'root:U', 'root:R', 'root:G', 'block:every_seed'],
+                 'style:text', 'root:U', 'root:R', 'root:G', 'block:every_seed',
+                 'family:long_distance', 'history:mutation'],
     'rule': ('cases = (Kripke structure, LTL formula A g, presentation '
              'style); enumerated: class representatives of all total '
              'structures with <=2 states (quick; <=3 thorough) over {p,q} x '
@@ -361,6 +362,89 @@ def run(ctx):
             run_case(nk, g, i, K)
             i += 1
         _enum[0] = False
+    # long distances: one-way rings with an exit to a sink, and formulas whose
+    # witnesses have to travel round the ring several times
+    a_, b_, c_ = ('ap', 'p'), ('ap', 'q'), ('ap', 'r')
+    far = [
+        ('not', ('F', ('and', a_, ('F', ('and', b_, ('F', ('and', a_,
+                                                            ('F', c_)))))))),
+        ('F', ('and', a_, ('F', ('and', b_, ('F', ('and', a_, ('F', c_))))))),
+        ('G', ('imply', a_, ('F', ('and', b_, ('F', c_))))),
+        ('U', ('not', c_), ('and', a_, ('X', ('U', ('not', c_), b_)))),
+        ('F', ('and', c_, ('X', ('G', c_)))),
+        ('not', ('F', ('and', b_, ('X', ('F', ('and', a_, ('X', ('F', b_)))))))),
+        ('R', c_, ('or', ('not', a_), ('F', b_))),
+    ]
+    rings = []
+    for n in (4, 5, 6):
+        for exit_at in (0, n - 2):
+            succ = [1 << ((i + 1) % n) for i in range(n)] + [1 << n]
+            succ[exit_at] |= 1 << n                  # exit to the sink n
+            labs = [{'p'} if i % 3 == 0 else ({'q'} if i % 3 == 1 else set())
+                    for i in range(n)] + [{'r'}]
+            rings.append(NK(range(n + 1), succ, labs))
+    k = 0
+    for nk in rings:
+        for g in far:
+            if ctx.mine(k):
+                LOG.sig['family:long_distance'] += 1
+                run_case(nk, g, 3 * k)
+            k += 1
+    # every placement of the two ring labels and of the exit (the number of
+    # rounds a witness needs depends on their relative positions)
+    for n in (4, 5):
+        for pa in range(n):
+            for pb in range(n):
+                for ex in range(n):
+                    if pa == pb:
+                        continue
+                    if ctx.mine(k):
+                        succ = [1 << ((i + 1) % n) for i in range(n)] + \
+                            [1 << n]
+                        succ[ex] |= 1 << n
+                        labs = [set() for _ in range(n)] + [{'r'}]
+                        labs[pa].add('p')
+                        labs[pb].add('q')
+                        nk = NK(range(n + 1), succ, labs)
+                        LOG.sig['family:long_distance'] += 1
+                        run_case(nk, far[k % 2], 3 * k)
+                    k += 1
+    # one structure queried, relabelled / rewired in place, queried again
+    from pyModelChecking import LTL as _LTL
+    for h in range(90 if ctx.quick else 2500):
+        rr = gen.rng(ctx.seed, PROP, ('mut', h))
+        if not ctx.mine(h):
+            continue
+        LOG.sig['history:mutation'] += 1
+        nk = gen.random_structure(rr, 4, atoms=('p', 'q'), nmin=2)
+        K = mcwork.kripke_of(nk)
+        forms = [('A', ('G', ('ap', 'p'))), ('A', ('F', ('ap', 'q'))),
+                 ('A', ('U', ('ap', 'p'), ('ap', 'q'))),
+                 ('A', gen.random_ltl_path(rr, 2, ('p', 'q'),
+                                           max_temporal=2))]
+        for step in range(5):
+            for t in rr.sample(forms, 2):
+                try:
+                    _LTL.modelcheck(K, mcwork.formula_arg('LTL', t, 'obj'))
+                except Exception:
+                    pass
+            sts = list(K.states())
+            x = rr.random()
+            s_ = rr.choice(sts)
+            if x < 0.5:
+                atom = rr.choice(['p', 'q'])
+                if atom in K.labels(s_):
+                    K.labels(s_).discard(atom)
+                else:
+                    K.labels(s_).add(atom)
+            elif x < 0.8:
+                d = rr.choice(sts)
+                if d not in K.next(s_):
+                    K.add_edge(s_, d)
+            else:
+                K.replace_labelling_function(
+                    {z: set(y for y in ('p', 'q') if rr.random() < 0.5)
+                     for z in sts})
     # a fixed block run by EVERY worker, i.e. under every hash seed of the
     # run: the closure order of the tableau is a function of string hashes
     blk = [NK(range(3), [0b010, 0b100, 0b001], [{'p'}, set(), {'q'}]),
